@@ -18,8 +18,13 @@ shutdown or renewal.
 from dataclasses import dataclass, field
 from typing import Callable, Any
 from enum import Enum
-from datetime import datetime, timedelta
+from datetime import datetime, timedelta, timezone
 import threading
+
+
+def _elapsed_clock() -> datetime:
+    """Clock for age / idle arithmetic: naive UTC, so a local-time step (DST, zone change) never distorts elapsed time."""
+    return datetime.now(timezone.utc).replace(tzinfo=None)
 
 
 class LifecyclePhase(Enum):
@@ -181,7 +186,7 @@ class Telomere:
         if self._phase != LifecyclePhase.NASCENT:
             return
 
-        self._started_at = datetime.now()
+        self._started_at = _elapsed_clock()
         self._last_activity = self._started_at
         self._transition_to(LifecyclePhase.ACTIVE)
         self._log_event("started")
@@ -204,7 +209,7 @@ class Telomere:
 
             self._operations_count += 1
             self._telomere_length = max(0, self._telomere_length - cost)
-            self._last_activity = datetime.now()
+            self._last_activity = _elapsed_clock()
 
             # Check for various senescence triggers
             self._check_senescence()
@@ -243,7 +248,7 @@ class Telomere:
     def heartbeat(self):
         """Update last activity timestamp (prevent idle timeout)."""
         with self._lock:
-            self._last_activity = datetime.now()
+            self._last_activity = _elapsed_clock()
 
     def check_timeouts(self) -> bool:
         """
@@ -255,7 +260,7 @@ class Telomere:
             if self._phase != LifecyclePhase.ACTIVE:
                 return self._phase not in (LifecyclePhase.APOPTOTIC, LifecyclePhase.TERMINATED)
 
-            now = datetime.now()
+            now = _elapsed_clock()
 
             # Check max lifetime
             if self.max_lifetime and self._started_at:
@@ -391,7 +396,7 @@ class Telomere:
         """Get current telomere/lifecycle status."""
         time_remaining = None
         if self.max_lifetime and self._started_at:
-            age = datetime.now() - self._started_at
+            age = _elapsed_clock() - self._started_at
             time_remaining = max(timedelta(0), self.max_lifetime - age)
 
         # Calculate health score
@@ -425,7 +430,7 @@ class Telomere:
         """Get the agent's age since start."""
         if not self._started_at:
             return None
-        return datetime.now() - self._started_at
+        return _elapsed_clock() - self._started_at
 
     def get_statistics(self) -> dict:
         """Get telomere statistics."""
